@@ -35,6 +35,30 @@ CLAIMED = {
          "send_message/to_set_message abstracted at the serialisation point; initial configuration satisfies the rule, element names/keys distinct.",
     technique="contract-based deductive verification: VCs generated from the real AST by symbolic execution with loop invariants, discharged by z3 (E-matching), counter-models replayed natively",
     design="4 C09"),
+ "C20": dict(
+    category="proof",
+    text="Deductive: for every concrete message class and part class of the real class table, two instances are built by the real constructors from "
+         "arbitrary attribute values and an arbitrary number of children (symbolic-size child families whose field map is a path summary of the real "
+         "part constructor); the real __eq__/to_dict are executed symbolically (optional attributes as conditional dict entries, children as an "
+         "extensional mapped sequence) and (a == b) is proved equivalent to the structural view of the statement: same kind, every attribute equal in "
+         "wire rendering (absent == None), same text, same ordered children incl. every child's attributes and value. Different kinds are proved unequal "
+         "pairwise. Additional instances with exactly 2 (thorough: 1..3) concrete children cover code shapes the symbolic-children encoding cannot express.",
+    note="Trusted: PyVC + encoding; str() of non-str values is an uninterpreted function; re-engine and checks.children contracts used inside constructors; "
+         "attribute values range over None/str/int.",
+    technique="contract-based deductive verification: VCs from the real AST (symbolic execution, function summaries, extensional sequences), z3",
+    design="4 C20"),
+ "C13": dict(
+    category="proof",
+    text="Deductive: checks.dictionary (per vocabulary), checks.number and checks.children (sequences of any length, loop invariant) are proved against "
+         "contracts whose vocabularies and number grammar come from the protocol, not from const.py; every vector constructor is proved to accept only "
+         "children of the protocol's kind for its tag (any number) and vocabulary-valued fields; IndiMessage.from_xml / IndiMessagePart.from_xml are "
+         "executed symbolically on an arbitrary element per registered tag (every attribute present or absent with any string, any text, 0 or 1 child "
+         "elements of the required and a foreign kind) and every successful parse is proved conformant: kind matches tag, constrained fields in "
+         "vocabulary, required attributes present, children of the required kind, number values in the number language; unknown tags are rejected.",
+    note="Trusted: PyVC + encoding; element model of xml.etree (tag, attribute map, text, children); str.strip contract; regex contract of re; "
+         "a missing number value is tolerated; from_xml analysed for 0/1 child elements, the unbounded clause rests on checks.children + constructors.",
+    technique="contract-based deductive verification: VCs from the real AST by symbolic execution, regular-language inclusion in z3's sequence theory, z3",
+    design="4 C13"),
 }
 
 NOT_YET = "check not built yet (work in progress)"
